@@ -128,6 +128,43 @@ func (x *Exec) doCallVals(p *Path, site ssa.Instruction, cc *ssa.CallCommon, fnv
 	if sc := cc.StaticCallee(); sc != nil && len(args) > 0 {
 		x.extsyncCheck(p, sc, args[0])
 	}
+	if len(p.frames) == 1 && x.fc != nil && len(x.fc.AfterCalls) > 0 {
+		for ck, cls := range x.fc.AfterCalls {
+			if !eventMatches(key, ck) {
+				continue
+			}
+			k0 := k
+			cls := cls
+			k = func(p *Path, res Val) {
+				vars := map[string]Val{}
+				for k2, v := range x.params {
+					vars[k2] = v
+				}
+				for i, a := range args {
+					vars[fmt.Sprintf("arg%d", i)] = a
+				}
+				if res.K == KTuple {
+					for i, r := range res.Fs {
+						vars[fmt.Sprintf("result%d", i)] = r
+					}
+				} else {
+					vars["result"] = res
+					vars["result0"] = res
+				}
+				ctx := x.evalCtx(p, vars)
+				for _, c := range cls {
+					s, err := ctx.EvalBool(c.E)
+					if err != nil {
+						x.errorf("%s:%d: after_call: %v", c.File, c.Line, err)
+						continue
+					}
+					p.assume(s)
+					x.e.note("assumed after call " + ck + " in " + shortTypeKey(x.e.funcKey(x.fn)) + ": " + c.Src)
+				}
+				k0(p, res)
+			}
+		}
+	}
 	callee := cc.StaticCallee()
 	if callee == nil && !cc.IsInvoke() && fnv.Fn != nil {
 		callee = fnv.Fn
@@ -379,14 +416,23 @@ func (x *Exec) applyContract(p *Path, site ssa.Instruction, fc *FuncContract, ca
 		}
 	}
 	if everything {
-		x.havocEverything(p)
+		if fc.Kind == "func" {
+			// an oxy function under contract may itself write state guarded by locks the caller holds:
+			// nothing survives except what its postconditions say (immutable / stable state aside)
+			e.havocAll(p)
+		} else {
+			x.havocEverything(p)
+		}
 	} else {
+		if hasExternal(fc) {
+			x.havocEverything(p)
+		}
 		for _, m := range fc.Modifies {
 			x.havocTarget(p, hctx, m, false, fc)
 			x.havocTarget(p, hctx, m, true, fc)
 		}
 	}
-	if (fc.ReadsClock || everything) && !x.clockStable {
+	if (fc.ReadsClock || everything || hasExternal(fc)) && !x.clockStable {
 		t := e.fresh("now", "Int")
 		p.assume("(>= " + t + " " + p.clock + ")")
 		p.clock = t
@@ -456,7 +502,7 @@ func (x *Exec) applyContract(p *Path, site ssa.Instruction, fc *FuncContract, ca
 // havocTarget forgets one modifies target. ghost selects ghost (true) or real (false) targets.
 func (x *Exec) havocTarget(p *Path, ctx *EvalCtx, target string, ghost bool, fc *FuncContract) {
 	e := x.e
-	if target == "nothing" || target == "everything" {
+	if target == "nothing" || target == "everything" || target == "external" {
 		return
 	}
 	ex, err := ParseExpr(target)
@@ -666,6 +712,43 @@ func (x *Exec) frameCheck(p *Path, fc *FuncContract) {
 	if hasEverything(fc) {
 		return
 	}
+	var onlyKeys map[string]bool
+	ownObj := map[string]string{}
+	if hasExternal(fc) {
+		// arbitrary code ran: only the state protected by the locks held on entry has a meaningful frame
+		onlyKeys = map[string]bool{}
+		labels := append([]string{}, fc.Holds...)
+		if fc.Atomic != "" {
+			labels = append(labels, fc.Atomic)
+		}
+		for _, lbl := range labels {
+			ex, err := ParseExpr(lbl)
+			if err != nil {
+				continue
+			}
+			if sl, ok := ex.(*ESel); ok {
+				ctx := x.evalCtx(p, x.params)
+				var t types.Type
+				if id, isID := sl.X.(*EIdent); isID {
+					if v, isVar := ctx.lookup(id.Name); isVar {
+						t = v.T
+					} else {
+						t = ctx.resolveType(id.Name)
+					}
+				}
+				if t != nil {
+					for _, k := range x.guardedKeys(typeKey(t), sl.F) {
+						onlyKeys[k] = true
+						if id, isID := sl.X.(*EIdent); isID && strings.HasPrefix(k, "F:"+typeKey(t)+".") {
+							if v, isVar := ctx.lookup(id.Name); isVar && v.K == KScalar {
+								ownObj[k] = v.S // the lock protects these fields of this object only
+							}
+						}
+					}
+				}
+			}
+		}
+	}
 	old := p.oldSnap
 	// Build the "after modifies" state from old by havocking the declared targets on a scratch path, then require
 	// that the real final state differs from old only where the scratch state was allowed to differ. We express this
@@ -723,6 +806,9 @@ func (x *Exec) frameCheck(p *Path, fc *FuncContract) {
 		if guarded[k] {
 			continue
 		}
+		if onlyKeys != nil && !onlyKeys[k] {
+			continue
+		}
 		if strings.HasPrefix(k, "F:") && e.isGhostKey(k) && false {
 			continue
 		}
@@ -739,6 +825,10 @@ func (x *Exec) frameCheck(p *Path, fc *FuncContract) {
 		// Since allowed = store-chain over `was` with fresh leaves, final agrees with `was` wherever allowed does,
 		// i.e. we ask: forall old locations not written by the chain, final == was.
 		goal := frameGoal(srt, cur, was, allowed, q.assumes, old.brk)
+		if obj, ok := ownObj[k]; ok {
+			// under `modifies external` other objects of the type are outside the lock's protection
+			goal = frameGoalAt(srt, cur, was, allowed, q.assumes, obj)
+		}
 		ob := x.oblige(p, "frame", shortKey(k), goal, nil, "only the locations in the modifies clause change ("+k+")")
 		_ = ob
 	}
@@ -1589,4 +1679,36 @@ func (x *Exec) extsyncCheck(p *Path, callee *ssa.Function, recv Val) {
 		return
 	}
 	x.lockCheck(p, recv.Own.TKey, mu, recv.Own.Obj, recv.Own.Field+"."+callee.Name()+"()", true)
+}
+
+// frameGoalAt: like frameGoal, for the single object obj.
+func frameGoalAt(srt, cur, was, allowed string, defs []string, obj string) string {
+	defOf := map[string]string{}
+	for _, d := range defs {
+		if strings.HasPrefix(d, "(= |") {
+			i := strings.Index(d[3:], "| ")
+			if i > 0 {
+				defOf[d[3:3+i+1]] = d[3+i+2 : len(d)-1]
+			}
+		}
+	}
+	t := allowed
+	var written []string
+	for t != was {
+		def, ok := defOf[t]
+		if !ok {
+			return "true"
+		}
+		parts := splitSexp(def)
+		if len(parts) != 4 || parts[0] != "store" {
+			return "true"
+		}
+		written = append(written, parts[2])
+		t = parts[1]
+	}
+	var anyWritten []string
+	for _, w := range written {
+		anyWritten = append(anyWritten, eq(w, obj))
+	}
+	return or(append(anyWritten, eq(sel(cur, obj), sel(was, obj)))...)
 }
